@@ -19,7 +19,8 @@ import unicodedata
 
 from . import common
 
-KINDS = ['title', 'strip', 'vstatus', 'statusraw', 'cdisp', 'cquote', 'morsel', 'dec2047', 'errtpl', 'logf']
+KINDS = ['title', 'strip', 'vstatus', 'statusraw', 'cdisp', 'cquote', 'morsel', 'dec2047', 'errtpl', 'logf',
+         'errpage_obj', 'redir_obj', 'finalize_obj', 'log_obj']
 
 CASE_BOUND = 0x370
 
@@ -36,7 +37,7 @@ def run_unit_more(M, kind, p, aux):
             return q, bad
         # statement: the NAME as emitted has no control octet (whatever normalisation did to it)
         try:
-            em = httputil.HeaderMap.encode_header_item(out)
+            em = httputil.HeaderMap().encode_header_item(out)
         except (ValueError, UnicodeEncodeError):
             em = b''
         if M.ctl_in(em):
@@ -79,7 +80,7 @@ def run_unit_more(M, kind, p, aux):
             if M.has_surrogate(p):
                 return q, bad
             raise
-        em = httputil.HeaderMap.encode_header_item(out)
+        em = httputil.HeaderMap().encode_header_item(out)
         if M.ctl_in(em):
             bad.append(('Content-Disposition %r for file name %r contains control octets' % (em, p),
                         'header_map_value_control_octet'))
@@ -104,7 +105,7 @@ def run_unit_more(M, kind, p, aux):
         name, _, value = out.partition(': ')
         for part in (name, value):
             try:
-                em = httputil.HeaderMap.encode_header_item(part)
+                em = httputil.HeaderMap().encode_header_item(part)
             except (ValueError, UnicodeEncodeError):
                 continue
             if M.ctl_in(em):
@@ -186,6 +187,93 @@ def run_unit_more(M, kind, p, aux):
             q.append(('loglinef %s ' % M.PIECES(c12_tables._pieces_format(fmt))
                       + ' '.join('%s=%s' % (k, T(atoms[k])) for k in 'hlutrsbfaoiz'),
                       'ok ' + T(lines[0]), 'access-log line (custom format)'))
+    elif kind == 'errpage_obj':
+        # get_error_page handed NON-str values whose str() is the text (exception instance, object with __str__,
+        # UserString, str subclass).  Refusing them (an exception) emits nothing; a page that IS rendered must show
+        # the text escaped like any other.
+        from cherrypy import _cperror
+        req, resp = M._fresh_serving()
+        okind, field = aux or ('exc', 'message')
+        texts = {'message': p, 'traceback': p[::-1], 'version': 'V' + p[:3]}
+        fields = dict(texts)
+        fields[field] = M.wrap_obj(texts[field], okind)
+        try:
+            body = _cperror.get_error_page(404, **fields)
+        except Exception:
+            return q, bad
+        code, reason, defmsg = httputil.valid_status(404)
+        st = '%s %s' % (code, reason)
+        bad += M.oracle_error_page(body, st, p or defmsg, p[::-1])
+        q.append(('errpage %s %s %s %s' % (T(st), T(p or defmsg), T(p[::-1]), T(texts['version'])),
+                  'ok ' + H(body), 'get_error_page bytes (non-str %s)' % field))
+    elif kind == 'redir_obj':
+        req, resp = M._fresh_serving()
+        okind = aux or 'ustr'
+        exc = cherrypy.HTTPRedirect.__new__(cherrypy.HTTPRedirect)
+        urls = [p, 'http://h/?' + p]
+        exc.urls = [M.wrap_obj(u, okind) for u in urls]
+        exc.args = (exc.urls, 303)
+        try:
+            exc.set_response()
+            body = resp.collapse_body()
+            loc = resp.headers['Location']
+            out = httputil.HeaderMap().encode_header_item(loc if isinstance(loc, (str, bytes)) else str(loc))
+        except Exception:
+            return q, bad
+        bad += M.oracle_redirect_page(body, urls)
+        if M.ctl_in(out):
+            bad.append(('Location %r contains control octets' % out, 'header_map_value_control_octet'))
+        q.append(('redir %d %s %s' % (303, T(urls[0]), T(urls[1])), 'ok ' + H(body), 'redirect body bytes (non-str urls)'))
+    elif kind == 'finalize_obj':
+        req, resp = M._fresh_serving()
+        okind = aux or 'obj'
+        resp.headers['X-Probe'] = M.wrap_obj(p, okind)
+        resp.cookie['k'] = M.wrap_obj(p, okind)
+        resp.cookie['k']['path'] = M.wrap_obj(p, okind)
+        resp.body = b''
+        try:
+            resp.finalize()
+            morsels = [m.output() for _, m in sorted(resp.cookie.items())]
+        except Exception:
+            return q, bad
+        items = [(k, v if isinstance(v, bytes) else str(v)) for k, v in resp.headers.items()]
+        hl = list(resp.header_list)
+        src_texts = [x for kv in items for x in kv] + [m.split(': ', 1)[1] for m in morsels]
+        bad += M.oracle_headers(resp.output_status, hl, None, src_texts, len(items) + len(morsels))
+        for i, (k, v) in enumerate(items):
+            if isinstance(v, str):
+                q.append(('hdr %s %s' % (T(k), T(v)), 'ok %s %s' % (H(hl[i][0]), H(hl[i][1])) if i < len(hl) else 'missing',
+                          'finalize header tuple (non-str value)'))
+        for j, m in enumerate(morsels):
+            i = len(items) + j
+            q.append(('cookie %s' % T(m), 'ok %s %s' % (H(hl[i][0]), H(hl[i][1])) if i < len(hl) else 'missing',
+                      'finalize cookie tuple (non-str value)'))
+    elif kind == 'log_obj':
+        req, resp = M._fresh_serving()
+        lm, cap = U['lm'], U['cap']
+        del cap.records[:]
+        okind, which = aux or ('obj', 'u')
+        atoms = {'h': '127.0.0.1', 'l': '-', 'u': '-', 't': '[T]', 'r': 'GET / HTTP/1.1', 's': '200', 'b': '5',
+                 'f': '', 'a': '', 'o': '-'}
+        if p:
+            atoms[which] = p
+        wv = M.wrap_obj(atoms[which], okind)
+        req.request_line = wv if which == 'r' else atoms['r']
+        req.remote = httputil.Host('127.0.0.1', 1111, wv if which == 'h' else atoms['h'])
+        req.login = (wv if which == 'u' else None) if atoms['u'] != '-' else None
+        if which == 'f' and p:
+            dict.__setitem__(req.headers, 'Referer', wv)
+        resp.output_status = b'200 OK'
+        dict.__setitem__(resp.headers, 'Content-Length', wv if which == 'b' else '5')
+        try:
+            lm.access()
+        except Exception:
+            return q, bad
+        lines = list(cap.records)
+        bad += M.oracle_log(lines, atoms)
+        if lines:
+            q.append(('logline ' + ' '.join('%s=%s' % (k, T(atoms[k])) for k in 'hlutrsbfao'),
+                      'ok ' + T(lines[0]), 'access-log line (non-str atom)'))
     else:
         raise common.HarnessError('unknown unit kind %r' % kind)
     return q, bad
@@ -216,6 +304,12 @@ def gen_aux(M, rng, kind):
         return rng.choice(['tpl_default', 'tpl_404'])
     if kind == 'logf':
         return (rng.choice(LOGF), rng.choice('oooouhrfa'))
+    if kind == 'errpage_obj':
+        return (rng.choice(M.OBJ_KINDS), rng.choice(['message', 'message', 'traceback', 'version']))
+    if kind in ('redir_obj', 'finalize_obj'):
+        return rng.choice(M.OBJ_KINDS)
+    if kind == 'log_obj':
+        return (rng.choice(M.OBJ_KINDS), rng.choice('uuhrfb'))
     return None
 
 
@@ -243,5 +337,17 @@ def systematic(M):
         out.append(('title', c + 'b-' + c, None))
     for s in M.SPECIALS:
         for kind in KINDS:
-            out.append((kind, s, {'vstatus': '200', 'statusraw': '200'}.get(kind)))
+            if not kind.endswith('_obj'):
+                out.append((kind, s, {'vstatus': '200', 'statusraw': '200'}.get(kind)))
+    # every value sink with every kind of non-str object, over the markup / control / quote specials
+    probes = ['<', '>', '&', '&lt;', '"', "'", '\\', '\r\n', '\n', '\x00', '\x7f', '\u8200', '<script>alert(1)</script>',
+              '</p>', '&amp;', 'a"\\', '\r\nX-Evil: 1']
+    for pr in probes:
+        for ok in M.OBJ_KINDS:
+            for field in ('message', 'traceback', 'version'):
+                out.append(('errpage_obj', pr, (ok, field)))
+            out.append(('redir_obj', pr, ok))
+            out.append(('finalize_obj', pr, ok))
+            for which in 'uhrfb':
+                out.append(('log_obj', pr, (ok, which)))
     return out
